@@ -47,6 +47,7 @@ fn main() {
                 "sketch" => "sketch",
                 "deque" => "deque",
                 "config" => "config",
+                "concs" => "concs",
                 _ => usage(),
             };
             let seed: u64 = args[3].parse().unwrap_or_else(|_| usage());
@@ -71,6 +72,12 @@ fn main() {
                         facade::gen_config(case_seed, len)
                     };
                     for l in lines {
+                        writeln!(out, "{}", l).unwrap();
+                    }
+                    continue;
+                }
+                if kind == "concs" {
+                    for l in gen::gen_concs(case_seed, p, len) {
                         writeln!(out, "{}", l).unwrap();
                     }
                     continue;
